@@ -1,6 +1,6 @@
 (* C14 - indexed updates apply every update exactly once and touch nothing else. *)
-From Coq Require Import List NArith ZArith Permutation.
-From EinxV Require Import Spec.LoopSem Spec.UpdateSem Proofs.UpdateProofs Gen.GenRavel.
+From Coq Require Import List NArith ZArith Arith Permutation.
+From EinxV Require Import Spec.LoopSem Spec.UpdateSem Model.Opt Proofs.UpdateProofs Proofs.OptProofs Proofs.RavelInj Proofs.JoinProofs Gen.GenRavel Gen.GenJoin.
 Import ListNotations.
 Open Scope Z_scope.
 
@@ -48,3 +48,75 @@ Theorem C14_get_at_reads_back_what_set_at_wrote : forall t u plan,
   read_back (apply_set t plan u) plan = map (fun pq => (snd pq, getZ u (snd pq))) plan.
 Proof. exact set_then_get_reads_back. Qed.
 Print Assumptions C14_get_at_reads_back_what_set_at_wrote.
+
+(* "touch nothing else": the flat index the lowering computes from a coordinate vector (coordinates times the regenerated
+   multipliers) is a bijection between the in-bounds coordinate vectors and the elements of the flattened target - two
+   different in-bounds coordinate vectors never address the same element, the index never leaves the target, and every
+   element has a coordinate vector - for every rank and all axis lengths *)
+Theorem C14_different_coordinates_address_different_elements : forall idx idx' lens,
+  valid_idx idx lens -> valid_idx idx' lens ->
+  dotN idx (gen_ravel_multipliers lens) = dotN idx' (gen_ravel_multipliers lens) -> idx = idx'.
+Proof. exact flat_index_is_injective. Qed.
+Print Assumptions C14_different_coordinates_address_different_elements.
+
+Theorem C14_flat_index_stays_inside_the_target : forall idx lens,
+  valid_idx idx lens -> (dotN idx (gen_ravel_multipliers lens) < nprod lens)%N.
+Proof. exact flat_index_in_bounds. Qed.
+Print Assumptions C14_flat_index_stays_inside_the_target.
+
+Theorem C14_every_element_has_a_coordinate_vector : forall lens n,
+  (n < nprod lens)%N -> exists idx, valid_idx idx lens /\ dotN idx (gen_ravel_multipliers lens) = n.
+Proof. exact flat_index_is_surjective. Qed.
+Print Assumptions C14_every_element_has_a_coordinate_vector.
+
+Example C14_flat_index_example : dotN [1; 2]%N (gen_ravel_multipliers [3; 4]%N) = 6%N /\ valid_idx [1; 2]%N [3; 4]%N.
+Proof. split; [reflexivity|]. repeat constructor. Qed.
+
+(* "the element addressed by the coordinates in the matching target slice": the index the lowering builds per target axis
+   is the coordinate argument where the axis is bracketed and the loop index (arange) where it is not ([gen_ravel_interleave], regenerated from the source's loop); its
+   flat index addresses, in the un-flattened target, exactly that element, and two iterations meet in one element only when
+   they are in the same slice with the same coordinates - any rank, any bracket positions, any lengths *)
+Theorem C14_the_addressed_element_is_in_the_matching_slice : forall marks loop coord lens,
+  valid_idx (gen_ravel_interleave marks loop coord) lens ->
+  Opt.unravel (dotN (gen_ravel_interleave marks loop coord) (gen_ravel_multipliers lens)) lens = gen_ravel_interleave marks loop coord.
+Proof. exact gen_flat_index_addresses_the_slice_element. Qed.
+Print Assumptions C14_the_addressed_element_is_in_the_matching_slice.
+
+Theorem C14_same_element_only_from_same_slice_and_coordinates : forall marks loop coord loop' coord' lens,
+  length loop = count false marks -> length coord = count true marks ->
+  length loop' = count false marks -> length coord' = count true marks ->
+  valid_idx (gen_ravel_interleave marks loop coord) lens -> valid_idx (gen_ravel_interleave marks loop' coord') lens ->
+  dotN (gen_ravel_interleave marks loop coord) (gen_ravel_multipliers lens) = dotN (gen_ravel_interleave marks loop' coord') (gen_ravel_multipliers lens) ->
+  loop = loop' /\ coord = coord'.
+Proof. exact gen_same_element_same_slice_same_coordinates. Qed.
+Print Assumptions C14_same_element_only_from_same_slice_and_coordinates.
+
+(* target "a [b c] d" with lengths 2 3 4 5, slice a=1 d=2, coordinates b=2 c=3 *)
+Example C14_slice_example :
+  gen_ravel_interleave [false; true; true; false] [1; 2]%N [2; 3]%N = [1; 2; 3; 2]%N /\
+  dotN [1; 2; 3; 2]%N (gen_ravel_multipliers [2; 3; 4; 5]%N) = 117%N /\ valid_idx [1; 2; 3; 2]%N [2; 3; 4; 5]%N.
+Proof. split; [reflexivity|split; [reflexivity|repeat constructor]]. Qed.
+
+From Coq Require Import String.
+Close Scope string_scope.
+
+(* "joined intermediate expression": the loop of _join_exprs (regenerated; the while loop as recursion on fuel) never runs
+   out of the fuel "number of axis occurrences", and the joined expression holds every axis of every expression, nothing
+   else, and each exactly once - for any number of expressions of any rank *)
+Theorem C14_joining_expressions_terminates : forall axes,
+  exists r, gen_join (total axes) axes = Some r.
+Proof. intros axes. apply join_terminates. apply Nat.le_refl. Qed.
+Print Assumptions C14_joining_expressions_terminates.
+
+Theorem C14_joined_expression_has_every_axis_exactly_once : forall fuel axes r,
+  gen_join fuel axes = Some r ->
+  NoDup r /\ (forall m, In m r <-> exists l, In l axes /\ In m l).
+Proof.
+  intros fuel axes r H. split; [exact (join_nodup _ _ _ H)|].
+  intros m. split; [exact (join_sound _ _ _ H m)|]. intros [l [Hl Hm]]. exact (join_complete _ _ _ H l m Hl Hm).
+Qed.
+Print Assumptions C14_joined_expression_has_every_axis_exactly_once.
+
+Example C14_join_example :
+  gen_join 7 [["a"; "d"; "e"]; ["d"; "f"]; ["a"; "d"]]%string = Some ["d"; "a"; "e"; "f"]%string.
+Proof. reflexivity. Qed.
